@@ -38,6 +38,50 @@ def run(ctx):
     from . import evaltables as _et18
     _et18.rule_definition_statement(ctx, "C18-last-value")
 
+    # ------------------------------------------------------------------ C18-line-splits
+    # "the transcript is the same however a form is split across lines": a line break is whitespace like a blank — the crate's own
+    # lexer yields the same tokens for a form whether its tokens are separated by a blank, a newline, CR LF, or a newline and
+    # indentation (pairs with their dot at a line end or a line start, vectors, quotes, strings next to a break)
+    ctx.rule("C18-line-splits", "the lexer yields the same tokens for a form however its tokens are spread over lines (blank / LF / CR LF / "
+                                "LF + indentation between any two tokens of twelve forms, dotted pairs and parameter lists with a rest "
+                                "among them)")
+    from . import lexrun as _lr18
+    forms18 = [["(", "a", ".", "b", ")"], ["(", "define", "(", "g", "a", ".", "rest", ")", "rest", ")"], ["'", "(", "1", ".", "2", ")"],
+               ["#(", "1", "2", ")"], ["(", "f", '"s t"', "#\\a", ")"], ["(", "a", "b", ".", "(", "c", ")", ")"], ["(", "+", "1", "-2", ".5e1", ")"],
+               ["(", "quote", "...", ")"], ["(", "if", "#t", "1", "2", ")"], ["(", "x", ".", "#(", "1", ")", ")"], ["(", "-", "a", ")"],
+               ["(", "let", "(", "(", "x", "1", ")", ")", "x", ")"]]
+    n18 = 0
+    for toks18 in forms18:
+        base_text = " ".join(toks18).replace("' ", "'")
+        base = _lr18.lex(fb, base_text + " ", max_tokens=40)
+        if base and base[-1][0] in ("stuck", "panic"):
+            ctx.undecided("C18-line-splits", base_text, "cannot follow the lexer on %r (%s)" % (base_text, base[-1][1]))
+            continue
+        want18 = [(k, pl) for k, pl, *_ in base]
+        for sep_name, sep in (("LF", "\n"), ("CRLF", "\r\n"), ("LF+indent", "\n    ")):
+            bad18 = None
+            for cut in range(1, len(toks18)):
+                if toks18[cut - 1] == "'":
+                    continue
+                text = " ".join(toks18[:cut]).replace("' ", "'") + sep + " ".join(toks18[cut:]).replace("' ", "'")
+                got = _lr18.lex(fb, text + "\n", max_tokens=40)
+                if got and got[-1][0] in ("stuck", "panic"):
+                    bad18 = ("undecided", text, got[-1][1])
+                    break
+                if [(k, pl) for k, pl, *_ in got] != want18:
+                    bad18 = ("differs", text, [(k, pl) for k, pl, *_ in got])
+                    break
+            n18 += 1
+            key18 = "%s/%s" % (base_text, sep_name)
+            if bad18 and bad18[0] == "undecided":
+                ctx.undecided("C18-line-splits", key18, "cannot follow the lexer on %r (%s)" % (bad18[1], bad18[2]))
+                continue
+            ctx.inst("C18-line-splits", key18, {"same_tokens_at_every_split": bad18 is None})
+            ctx.oblige(bad18 is None)
+            if bad18:
+                ctx.report("C18-line-splits", key18, "%r split as %r is read as %s, on one line as %s: the same form means something else when a "
+                           "line break falls there" % (base_text, bad18[1], bad18[2], want18), where_of(fb.find("<parser::lexer::Lexer as std::iter::Iterator>::next")))
+
     # ------------------------------------------------------------------ C18-agreement
     ctx.rule("C18-agreement", "the completeness test agrees with the reader about which parentheses count")
     from . import repltables
